@@ -593,6 +593,9 @@ def run_group(prop, name, tier, seed):
     try:
         return _run_group_inner(spec, prop, name, tier, seed, t0)
     finally:
+        # modules first imported during this group may have been patched before we could snapshot them: drop them (fresh import next time)
+        for k in [k for k in list(_sys.modules) if k.startswith("tf_pwa.") and k not in saved]:
+            del _sys.modules[k]
         for k, d in saved.items():
             m = _sys.modules.get(k)
             if m is None:
